@@ -268,6 +268,13 @@ def judge_one(kind, ir, r, case, tier='quick'):
         r.excl['Z not finite'] += 1
         return False
     logref = evaluate(ir, ('log', 'fixed-point', False, 'float64', True))
+    ref_g, logref_g = ref[2], (logref[2] if logref[0] == 'ok' else None)
+    if zero_nt:
+        # fixed-point gradients at a zero-valued nonterminal are known finding K03 (C03): use newton as the gradient reference
+        rn = evaluate(ir, ('real', 'newton', False, 'float64', True))
+        ln = evaluate(ir, ('log', 'newton', False, 'float64', True))
+        ref_g = rn[2] if rn[0] == 'ok' else None
+        logref_g = ln[2] if ln[0] == 'ok' else None
     rt64, rt32 = (1e-8, 2e-3) if rec else (1e-9, 1e-4)
     for cfg in configs_for(ir, kind, tier):
         sem, m, jp, dt, grad = cfg
@@ -285,21 +292,23 @@ def judge_one(kind, ir, r, case, tier='quick'):
         if sem == 'real':
             if not close(v, Z, rt, 1e-12 if dt == 'float64' else 1e-6):
                 msg = 'value %r vs reference %r' % (v, Z)
-            elif grad and zero_nt:
-                r.excl['gradient comparison skipped: zero-valued nonterminal (known finding K03 of C03)'] += 1
-            elif grad and not grads_close(res[2], ref[2], 1e-6 if rec else 1e-9):
-                msg = 'gradients %r vs reference %r' % (res[2], ref[2])
+            elif grad and zero_nt and (m == 'fixed-point' or ref_g is None):
+                r.excl['gradient comparison skipped: fixed-point at a zero-valued nonterminal (known finding K03 of C03)'] += 1
+            elif grad and not grads_close(res[2], ref_g, 1e-6 if rec else 1e-9):
+                msg = 'gradients %r vs reference %r' % (res[2], ref_g)
         elif sem == 'log':
             want = [math.log(x) if x > 0 else -math.inf for x in flat(Z)]
             if not close(flat(v), want, rt, 1e-9 if dt == 'float64' else 1e-4):
                 msg = 'Log value %r vs log of Real %r' % (v, want)
-            elif grad and logref[0] == 'ok' and not zero_nt and not grads_close(res[2], logref[2], 1e-6 if rec else 1e-9):
-                msg = 'Log gradients %r vs reference %r' % (res[2], logref[2])
-            elif grad and not zero_nt and len(flat(Z)) == 1 and flat(Z)[0] > 0 and ref[2] is not None:
+            elif grad and zero_nt and (m == 'fixed-point' or logref_g is None):
+                r.excl['gradient comparison skipped: fixed-point at a zero-valued nonterminal (known finding K03 of C03)'] += 1
+            elif grad and logref_g is not None and not grads_close(res[2], logref_g, 1e-6 if rec else 1e-9):
+                msg = 'Log gradients %r vs reference %r' % (res[2], logref_g)
+            elif grad and len(flat(Z)) == 1 and flat(Z)[0] > 0 and ref_g is not None:
                 # Log = log Real also for the derivatives: d log Z / d log w = w dZ/dw / Z (scalar start symbol)
                 z0 = flat(Z)[0]
                 for name, gl in (res[2] or {}).items():
-                    gr = ref[2].get(name)
+                    gr = ref_g.get(name)
                     wv = flat(IR.map_nested(ir['w'][name], lambda x: float(x)))
                     if ir.get('patterned', {}).get(name) == 'diag' and ir['nl'][ir['term'][name][0]] > 1:
                         k = ir['nl'][ir['term'][name][0]]
